@@ -229,3 +229,66 @@ impl<DB: MetaDataBroker + ThreadSafe, MB: MetaManipulationBroker, F: RedisClient
         }
     }
 }
+
+#[cfg(undermoon_verif)]
+impl<DB: MetaDataBroker + ThreadSafe, MB: MetaManipulationBroker, F: RedisClientFactory>
+    CoordinatorService<DB, MB, F>
+{
+    // The four production loops without the TCP api service.
+    pub async fn verif_loop_detect(&self) -> Result<(), CoordinateError> {
+        self.loop_detect().await
+    }
+
+    pub async fn verif_loop_proxy_sync(&self) -> Result<(), CoordinateError> {
+        self.loop_proxy_sync().await
+    }
+
+    pub async fn verif_loop_failure_handler(&self) -> Result<(), CoordinateError> {
+        self.loop_failure_handler().await
+    }
+
+    pub async fn verif_loop_migration_sync(&self) -> Result<(), CoordinateError> {
+        self.loop_migration_sync().await
+    }
+
+    // One round of each loop, driven to completion.
+    pub async fn verif_detect_round(&self) -> Vec<Result<(), CoordinateError>> {
+        vec![
+            Self::gen_detector(
+                self.config.reporter_id.clone(),
+                self.data_broker.clone(),
+                self.client_factory.clone(),
+            )
+            .run()
+            .await,
+        ]
+    }
+
+    pub async fn verif_proxy_sync_round(&self) -> Vec<Result<(), CoordinateError>> {
+        let sync = Self::gen_proxy_meta_synchronizer(
+            self.data_broker.clone(),
+            self.client_factory.clone(),
+            self.config.enable_compression,
+        );
+        let res = sync.run().collect().await;
+        res
+    }
+
+    pub async fn verif_failure_handler_round(&self) -> Vec<Result<(), CoordinateError>> {
+        let handler =
+            Self::gen_failure_handler(self.data_broker.clone(), self.mani_broker.clone());
+        let res = handler.run().collect().await;
+        res
+    }
+
+    pub async fn verif_migration_sync_round(&self) -> Vec<Result<(), CoordinateError>> {
+        let sync = Self::gen_migration_state_synchronizer(
+            self.data_broker.clone(),
+            self.mani_broker.clone(),
+            self.client_factory.clone(),
+            self.config.enable_compression,
+        );
+        let res = sync.run().collect().await;
+        res
+    }
+}
